@@ -230,7 +230,16 @@ impl SymbolTypes {
                     }
                     _ => m.no_match = true,
                 },
-                ChoiceKind::Ref { ref_type, .. } => m.single = Some(ref_type.clone()),
+                ChoiceKind::Ref { ref_type, .. } => {
+                    // As for the single-field struct above: a second
+                    // single-element alternative means this is not a
+                    // zero/one-or-more pattern.
+                    if m.single.is_none() {
+                        m.single = Some(ref_type.clone())
+                    } else {
+                        m.no_match = true
+                    }
+                }
                 ChoiceKind::Plain => m.no_match = true,
             }
         }
